@@ -96,7 +96,11 @@ class Driver:
     """batch interface: queue request lines, run the compiled model once, get replies in order"""
 
     def __init__(self):
-        if not os.path.exists(DRIVER):
+        for _ in range(120):            # a concurrent `lake build driver` replaces the binary: wait for it
+            if os.path.exists(DRIVER):
+                break
+            time.sleep(1)
+        else:
             raise SystemExit("driver not built: run ./setup.sh")
         self.lines = []
 
